@@ -206,10 +206,24 @@ def multisig_jobs(chk):
             r, s = btc.ecdsa_sign(rng.randrange(1, btc.N), d); sigs[0] = btc.der_encode(r, s) + bytes([ht])
         if mode == "empty" and sigs:
             sigs[rng.randrange(len(sigs))] = b""
-        dummy = rng.choice([b"", b"", b"", b"\x01"])
+        dummy = rng.choice([b"", b"", b"", b"", b"\x01", b"\x00", b"\x80", b"\x00\x00"])
         flags = sorted(f for f in SIGFLAGS if rng.random() < rng.choice([0.0, 0.3, 1.0]))
         n += 1
         jobs.append(SessionJob("m%d:%s:%dof%d:%s" % (n, sv, m, nk, mode), script, [dummy] + sigs, flags, sv, cmds=["steps"], cmp=CMP_SIG, txctx=sp.txctx()))
+    # the dummy element: NULLDUMMY asks for the EMPTY string, not for a false value (00, 80, 0000 are false and not empty); with a valid
+    # 1-of-1 signature and with no signature at all, flag on and off
+    for sv in ("BASE", "WITNESS_V0"):
+        for dummy in (b"", b"\x00", b"\x80", b"\x00\x00", b"\x00\x80", b"\x01", b"\x00" * 5):
+            for flags in ([], ["NULLDUMMY"], ["NULLDUMMY", "NULLFAIL", "STRICTENC", "DERSIG", "LOW_S"], ["NULLFAIL", "STRICTENC"]):
+                for m_ in (0, 1):
+                    sec = rng.randrange(1, btc.N); key = btc.pubkey_create(sec)
+                    script = bytes([0x50 + m_]) + push(key) + b"\x51" + O("CHECKMULTISIG")
+                    sp = Spend(rng, 1, 1, 0, spk=b"\x51", witness=(sv == "WITNESS_V0"))
+                    d = btc.sighash_legacy(sp.tx, 0, script, 1) if sv == "BASE" else btc.sighash_bip143(sp.tx, 0, script, sp.amount, 1)
+                    r, s_ = btc.ecdsa_sign(sec, d)
+                    n += 1
+                    jobs.append(SessionJob("m%d:%s:dummy:%s:%dof1" % (n, sv, dummy.hex() or "empty", m_), script, [dummy] + ([btc.der_encode(r, s_) + b"\x01"] if m_ else []), flags, sv,
+                                           cmds=["steps"], cmp=CMP_SIG, txctx=sp.txctx()))
     return jobs
 
 
